@@ -27,6 +27,9 @@ CHECKS = {
     'C09': ('model_checking', 'cat/pad/diag/mprod/to_ttm/conj/clone against the dense operation for all core, fill and factor values per structure (pad fill value symbolic, so 0 and non-zero are both covered).', '4 C09'),
     'C10': ('model_checking', 'reshape / permute / to_qtt on structurally-orthogonal inputs with symbolic magnitudes and symbolic eps (exact QR/SVD models), qtt_to_tens on arbitrary symbolic cores: requested shape exactly, '
             'error <= c*eps*norm per path, and exact equality at the default eps (decides sign/scale preservation under the positive-diagonal QR convention).', '4 C10'),
+    'C15': ('model_checking', 'Autograd model on exact symbolic expressions: tracked cores are symbols, detach/item/numpy/tensor(t) are value-equal cut copies, backward() is exact differentiation. For 21 expressions over the '
+            'differentiable operations and every choice of tracked operand/core, z3 decides EXISTS core values . dF_TT/dtheta != dF_dense/dtheta; grad.grad / grad.grad_list bookkeeping and shapes checked per path; '
+            'each replay compares torch.autograd gradients on the real code.', '4 C15'),
     'C16': ('model_checking', 'riemannian_projection on rank-1 base points with arbitrary symbolic entries and on sparse rank-2..3 base points with symbolic magnitudes (exact symbolic QR), z, w arbitrary symbolic TT objects: '
             'linearity (symbolic alpha, beta), idempotence, self-adjointness, P(x)=x, residual orthogonality and the rank bound are decided by z3 as equalities of rational functions with roots. The riemannian_gradient clause is not decided (no autograd encoding), see DESIGN.', '4 C16'),
     'C18': ('model_checking', 'Shape-level symbolic execution: mode sizes and ranks of the operands are z3 integers in [1,B]; for every public entry point and operand-kind pair one run per structure explores the '
